@@ -21,6 +21,8 @@ RULE = ("cases = (declared graph, root, topological, checkCycles) listings, (dec
         "without version) queries, and integer graphs given to topologicalSort/stronglyConnectedComponents; graphs "
         "are generated from shapes (chain, diamond, shared sub-tree, random DAG, cyclic, name-cyclic across versions) "
         "with optional edges, explicit versions of declared and undeclared versions, two versions of one product, "
+        "versions that are string prefixes of one another (1.2 / 1.2.11 / 1.20, 1 / 10 / 1.0, 2.0 / 2.0+1 / 2.0-rc1) each with a user "
+        "of its own and queried one by one together with undeclared beginnings and continuations, "
         "names without a current version, unresolvable names, -j and unsetupRequired lines, products declared without a "
         "table file or with a table file missing on disk, plus an exhaustive family "
         "(4 products, every subset of 3 candidate lines per table: 4096 graphs; all of them in the thorough tier, a "
@@ -41,6 +43,9 @@ MODES = [[False, False], [True, False], [True, True], [False, True]]
 
 
 # ---- generator ---------------------------------------------------------------------------------------
+
+PREFIX_FAMILIES = [["1.2", "1.2.11", "1.20"], ["1", "10", "1.0"], ["2.0", "2.0+1", "2.0-rc1"], ["3", "3.1", "3.10"]]
+
 
 def gen_graph(rng, wide=False):
     shape = rng.choice(["chain", "diamond", "shared", "dag", "dag", "dag2", "cyclic", "cyclic", "namecycle", "tiny"])
@@ -63,6 +68,13 @@ def gen_graph(rng, wide=False):
     versions = {}
     for m in names:
         versions[m] = rng.sample(vpool[:2] if len(vpool) == 3 else vpool, 2) if rng.random() < two else [rng.choice(vpool)]
+    # versions that are string prefixes of one another (a version query must match the whole version, not its beginning)
+    prefixed = []
+    if rng.random() < 0.4:
+        for m in rng.sample(names, min(len(names), rng.choice([1, 1, 2]))):
+            fam = rng.choice(PREFIX_FAMILIES)
+            versions[m] = rng.sample(fam, rng.choice([2, 3, 3]))
+            prefixed.append(m)
     prods = []
     for i, m in enumerate(names):
         r = rng.random()
@@ -97,6 +109,13 @@ def gen_graph(rng, wide=False):
                 prods[-1]["notable"] = True        # declared without a table file
             elif p_missing and rng.random() < p_missing:
                 prods[-1]["missing"] = True        # declared with a table file that is not there
+    for m in prefixed:
+        # each of the versions gets a user of its own (an explicit-version line in the table of a distinct product)
+        others = [q for q in prods if q["name"] != m]
+        rng.shuffle(others)
+        for v, q in zip(versions[m], others):
+            q["deps"].append({"k": rng.choice(["req", "req", "opt"]), "n": m, "v": v, "j": False})
+            q.pop("notable", None)
     if rng.random() < 0.3 and len(names) >= 3:
         # a product reached through a -j line and through an ordinary path, in both orders, the -j target having
         # dependencies of its own: it must be opened by the ordinary visit whichever comes first
@@ -164,7 +183,18 @@ def queries_of(graph):
     out = []
     for n in names:
         out.append([n, None])
-        for v in sorted(vers.get(n, ())):
+        mine = sorted(vers.get(n, ()))
+        for v in mine:
+            out.append([n, v])
+        # versions declared nowhere that are a beginning of one that is (and one that continues a declared one)
+        extra = []
+        for v in mine:
+            for k in range(1, len(v)):
+                if v[:k] not in vers[n] and v[:k] not in extra:
+                    extra.append(v[:k])
+            if v + "0" not in vers[n] and v + "0" not in extra:
+                extra.append(v + "0")
+        for v in extra[:3]:
             out.append([n, v])
     return out
 
@@ -329,11 +359,10 @@ def oracle_build(R, root, out):
                 return
 
 
-def oracle_users(R, graph, query, out, reach_cache):
+def expected_users(R, query, reach_cache):
+    """{(user, user's version, version needed, optional)} for the query, from the generated graph alone; None when a
+    table the property says nothing about (unsetup line, missing file) is involved"""
     n, v = query
-    if isinstance(out, str):
-        yield ("uses_no_error", None, "uses raised %s" % out)
-        return
     want = set()
     for key in R.decl:
         node = (key[0], key[1], True)
@@ -346,10 +375,20 @@ def oracle_users(R, graph, query, out, reach_cache):
             reach_cache[node] = (listed - {node}, any(R.has_unsetup.get(u) for u in expanded), allopt)
         listed, uns, allopt = reach_cache[node]
         if uns:
-            return
+            return None
         for t in listed:
             if t[0] == n and (v is None or t[1] == v):
                 want.add((key[0], key[1], t[1], allopt[t]))
+    return want
+
+
+def oracle_users(R, graph, query, out, reach_cache):
+    if isinstance(out, str):
+        yield ("uses_no_error", None, "uses raised %s" % out)
+        return
+    want = expected_users(R, query, reach_cache)
+    if want is None:
+        return
     got = [(u[0], u[1], u[2], u[3]) for u in out]
     if set(got) != want:
         yield ("uses_inverse", None, "missing %s, extra %s" % (sorted(want - set(got), key=repr), sorted(set(got) - want, key=repr)))
@@ -535,6 +574,11 @@ def evaluate(ctx, graphs, ncli=2, corpus=False):
             ctx.hist("graph:has_product_without_table")
         if any(p.get("missing") for p in g["products"]):
             ctx.hist("graph:has_missing_table_file")
+        byn = {}
+        for p in g["products"]:
+            byn.setdefault(p["name"], []).append(p["version"])
+        if any(a != b and b.startswith(a) for vs in byn.values() for a in vs for b in vs):
+            ctx.hist("graph:has_prefix_versions")
         for ri, r in enumerate(roots):
             for mi, mode in enumerate(MODES):
                 out, mo = io_["lists"][ri][mi], ml[ri][mi]
@@ -579,6 +623,14 @@ def evaluate(ctx, graphs, ncli=2, corpus=False):
                     inp = {"graph": g, "query": q}
                     ctx.case(key=[g["products"], "uses", q], nontrivial=bool(out) and not isinstance(out, str))
                     ctx.hist("users:%s" % (out if isinstance(out, str) else ("some" if out else "none")))
+                    if q[1] is not None:
+                        mine = expected_users(R, q, cache)
+                        for q2 in queries:
+                            if q2[0] == q[0] and q2[1] and q2[1] != q[1] and q2[1].startswith(q[1]):
+                                other = expected_users(R, q2, cache)
+                                if mine is not None and other and {(u[0], u[1]) for u in other} - {(u[0], u[1]) for u in mine}:
+                                    ctx.hist("users:prefix_version_with_distinct_users")
+                                    break
                     if out != mo:
                         ctx.disagree("users", inp, out, mo)
                     for clause, fid, detail in oracle_users(R, g, q, out, cache):
@@ -749,7 +801,8 @@ def run(ctx):
     h = ctx.histogram
     if not ctx.escalated and n >= 100:
         for need in ("closure:cyclic", "closure:two_declared_versions", "closure:unresolved", "shape=cyclic",
-                     "closure:j_target_opened_elsewhere", "closure:j_target_not_opened"):
+                     "closure:j_target_opened_elsewhere", "closure:j_target_not_opened", "graph:has_prefix_versions",
+                     "users:prefix_version_with_distinct_users"):
             if not h.get(need):
                 raise common.InfraError("degenerate distribution: no case with %s" % need)
 
